@@ -225,6 +225,8 @@ class Parser:
                     self.next()
             self.expect(")")
             return ("ptuple", ps)
+        if self.peek()[0] == "chr" and self.peek()[1].startswith("b'"):
+            return ("plit", byte_value(self.next()[1]))
         if self.at("-") or self.peek()[0] == "num":
             neg = False
             if self.at("-"):
@@ -274,6 +276,9 @@ class Parser:
             self.expect("}")
             return ("pstruct", path, fs)
         if len(path) == 1 and (path[0][0].islower() or path[0][0] == "_"):
+            if self.at("@"):
+                self.next()
+                return ("pat_at", path[0], self.pat1())
             return ("pvar", path[0])
         return ("pctor", path, [])
 
@@ -376,6 +381,12 @@ class Parser:
         if tok[0] == "num":
             self.next()
             return ("lit", self.number(tok[1]))
+        if tok[0] == "chr" and tok[1].startswith("b'"):
+            self.next()
+            return ("lit", byte_value(tok[1]), "byte")
+        if tok[0] == "str" and tok[1].startswith('b"'):
+            self.next()
+            return ("bytes", bytes_value(tok[1]))
         if tok[0] in ("str", "chr"):
             self.next()
             return ("strlit", tok[1])
@@ -631,6 +642,31 @@ class Parser:
         return ("block", stmts, tail)
 
 
+def byte_value(tok):
+    body = tok[2:-1]
+    if body.startswith("\\"):
+        return {"n": 10, "t": 9, "r": 13, "0": 0, "\\": 92, "'": 39, '"': 34}[body[1]] if body[1] != "x" else int(body[2:], 16)
+    return ord(body)
+
+
+def bytes_value(tok):
+    body = tok[2:-1]
+    out = []
+    i = 0
+    while i < len(body):
+        if body[i] == "\\":
+            if body[i + 1] == "x":
+                out.append(int(body[i + 2:i + 4], 16))
+                i += 4
+            else:
+                out.append({"n": 10, "t": 9, "r": 13, "0": 0, "\\": 92, "'": 39, '"': 34}[body[i + 1]])
+                i += 2
+        else:
+            out.append(ord(body[i]))
+            i += 1
+    return out
+
+
 def parse_file(path):
     """-> (functions: dict qualified name -> (params, ret, body), macros)"""
     toks = lex(open(path).read())
@@ -641,6 +677,7 @@ def parse_file(path):
             break
     macros = {}
     funcs = {}
+    fn_generics = {}
     p = Parser(toks, macros)
 
     def parse_macro_rules():
@@ -672,8 +709,58 @@ def parse_file(path):
     def parse_fn(prefix):
         p.expect("fn")
         name = p.ident()
+        generics = {}
         if p.at("<"):
-            p.skip_group("<", ">")
+            p.next()
+            while not p.at(">"):
+                if p.peek()[0] == "life":
+                    p.next()
+                elif p.at("const"):
+                    p.next()
+                    gn = p.ident()
+                    p.expect(":")
+                    p.ty()
+                    generics[gn] = ("const",)
+                else:
+                    gn = p.ident()
+                    generics[gn] = ("type",)
+                    if p.at(":"):
+                        p.next()
+                        if p.at("Fn") or p.at("FnMut") or p.at("FnOnce"):
+                            p.next()
+                            p.expect("(")
+                            ats = []
+                            while not p.at(")"):
+                                ats.append(p.ty())
+                                if p.at(","):
+                                    p.next()
+                            p.expect(")")
+                            rt = ("unit",)
+                            if p.at("->"):
+                                p.next()
+                                rt = p.ty()
+                            generics[gn] = ("fn", ats, rt)
+                        else:
+                            # other bounds (FromStr<Err = …>): skip to the next , or > at depth 0
+                            d = 0
+                            while not ((p.at(",") or p.at(">")) and d == 0):
+                                if p.peek()[0] == "eof":
+                                    raise TransError("unterminated generics")
+                                if p.at("<"):
+                                    d += 1
+                                elif p.at(">"):
+                                    d -= 1
+                                elif p.at(">>"):
+                                    # lexed as one token: closes the bound and the parameter list
+                                    d -= 2
+                                    if d < 0:
+                                        p.t[p.i] = ("op", ">")
+                                        d = 0
+                                        break
+                                p.next()
+                if p.at(","):
+                    p.next()
+            p.expect(">")
         p.expect("(")
         params = []
         while not p.at(")"):
@@ -691,7 +778,11 @@ def parse_file(path):
                 params.append(("self", ("named", prefix or "Self")))
             else:
                 p.expect(":")
-                params.append((pn, p.ty()))
+                mutref = p.at("&") and (p.at("mut", 1) or (p.peek(1)[0] == "life" and p.at("mut", 2)))
+                pt = p.ty()
+                if pt[0] == "named" and pt[1] in generics and generics[pt[1]][0] == "fn":
+                    pt = ("fnty", generics[pt[1]][1], generics[pt[1]][2])
+                params.append((pn, ("mutref", pt[1] if pt[0] == "ref" else pt) if mutref else pt))
             if p.at(","):
                 p.next()
         p.expect(")")
@@ -709,6 +800,7 @@ def parse_file(path):
         try:
             body = p.block()
             funcs[(prefix + "." if prefix else "") + name] = (params, ret, body)
+            fn_generics[(prefix + "." if prefix else "") + name] = [g for g, k in generics.items() if k[0] == "type"]
         except TransError as e:
             # not every function of the file is in the subset; only listed ones must parse
             funcs[(prefix + "." if prefix else "") + name] = ("ERROR", str(e), None)
@@ -767,6 +859,9 @@ def parse_file(path):
 
     parse_items("", False)
     # macro invocations at item level inside impl blocks (impl_datetime!()) are skipped by the item skipper
+    for q, g in fn_generics.items():
+        if q in funcs and funcs[q][0] != "ERROR":
+            funcs[q] = funcs[q] + (g,)
     return funcs, macros
 
 
@@ -845,6 +940,23 @@ EXTERN_METHODS = {
 }
 
 
+# functions that are not translated but given a meaning directly (trusted; DESIGN §13)
+EXTERN_FNS = {
+    # the constructor of local time types (its byte loop `TzAsciiStr::new` is not in the subset): the model function
+    "LocalTimeType.new": ("TzVerif.Model.LocalTimeType.new", [("i32",), ("bool",), ("option", ("slice", ("u8",)))],
+                          ("result", ("named", "LocalTimeType"), ("named", "LocalTimeTypeError"))),
+    "u8.is_ascii_digit": ("TzVerif.Src.u8_is_ascii_digit", [("u8",)], ("bool",)),
+    "u8.is_ascii_alphabetic": ("TzVerif.Src.u8_is_ascii_alphabetic", [("u8",)], ("bool",)),
+}
+# `str::from_utf8(bytes)?.parse::<T>()?` on the digit strings the parser hands over (modelled: DESIGN trusted base)
+PARSE_INT = {"i32": "TzVerif.Src.parse_int_i32", "u16": "TzVerif.Src.parse_int_u16", "u8": "TzVerif.Src.parse_int_u8"}
+# From conversions used by `?`: (from, to) -> constructor
+FROM_CONV = {
+    ("ParseDataError", "TzStringError"): "TzVerif.Model.TzStringError.parseData",
+    ("ParseDataError", "TzFileError"): "TzVerif.Model.TzFileError.parseData",
+}
+
+
 def field_type(ft):
     if isinstance(ft, tuple):
         return ft
@@ -876,7 +988,15 @@ def lean_ty(t):
     if k == "ref":
         return lean_ty(t[1])
     if k == "slice":
+        if strip_ref(t[1]) == ("u8",):
+            return "List Nat"       # bytes
         return "List " + paren(lean_ty(t[1]))
+    if k == "mutref":
+        return lean_ty(strip_ref(t))
+    if k == "fnty":
+        return "(" + " → ".join(("Nat" if strip_ref(a) == ("u8",) else paren(lean_ty(strip_ref(a)))) for a in t[1]) + " → " + lean_ty(t[2]) + ")"
+    if k == "tyvar":
+        return t[1]
     if k == "tuple":
         return " × ".join(paren(lean_ty(x)) for x in t[1])
     if k == "result":
@@ -890,6 +1010,10 @@ def lean_ty(t):
             raise TransError("unresolved Self")
         if t[1] in NEWTYPES:
             return "Int"
+        if t[1] in TYPE_ALIASES:
+            return lean_ty(TYPE_ALIASES[t[1]])
+        if len(t[1]) == 1 and t[1].isupper():
+            return t[1]             # a type parameter
         return struct_lean(t[1])
     raise TransError("type %r" % (t,))
 
@@ -898,9 +1022,14 @@ def paren(s):
     return s if re.match(r"^[A-Za-z0-9_.']+$", s) else "(" + s + ")"
 
 
+TYPE_ALIASES = {"Cursor": ("slice", ("u8",))}
+
+
 def strip_ref(t):
-    while t and t[0] == "ref":
+    while t and t[0] in ("ref", "mutref"):
         t = t[1]
+    if t and t[0] == "named" and t[1] in TYPE_ALIASES:
+        t = TYPE_ALIASES[t[1]]
     if t and t[0] == "infer":
         return None
     return t
@@ -949,7 +1078,7 @@ class Normaliser:
             lets, init = self.hoist(st[3], top=True)
             return lets + [("let", st[1], st[2], init)]
         if k == "assign":
-            lets, rhs = self.hoist(st[3], top=False)
+            lets, rhs = self.hoist(st[3], top=(st[2] == "="))
             return lets + [("assign", st[1], st[2], rhs)]
         if k == "while":
             return [("while", st[1], self.block(st[2]))]
@@ -976,6 +1105,62 @@ class Normaliser:
             return lets + [("expr", e2)]
         return [st]
 
+    def norm_pat(self, p, nested):
+        """literals and `x @ lit` inside constructor patterns become variables with a guard:
+        -> (pattern, guard expression or None)"""
+        k = p[0]
+        if k == "pat_at":
+            sub, g = self.norm_pat(p[2], nested=True)
+            if sub[0] != "pvar" or g is None:
+                raise TransError("x @ pattern that is not a literal")
+            # rename the fresh variable to the bound name
+            return ("pvar", p[1]), self.rename(g, sub[1], p[1])
+        if k in ("plit", "prange") and nested:
+            v = self.fresh()
+            if k == "plit":
+                return ("pvar", v), ("bin", "==", ("path", [v]), ("lit", p[1]) if p[1] < 256 else ("lit", p[1]))
+            return ("pvar", v), ("bin", "&&", ("bin", "<=", ("lit", p[1]), ("path", [v])), ("bin", "<=", ("path", [v]), ("lit", p[2])))
+        if k == "pctor" and p[2]:
+            subs = []
+            guard = None
+            for x in p[2]:
+                x2, g = self.norm_pat(x, nested=True)
+                subs.append(x2)
+                if g is not None:
+                    guard = g if guard is None else ("bin", "&&", guard, g)
+            return ("pctor", p[1], subs), guard
+        if k == "ptuple" and nested:
+            subs = []
+            guard = None
+            for x in p[1]:
+                x2, g = self.norm_pat(x, nested=True)
+                subs.append(x2)
+                if g is not None:
+                    guard = g if guard is None else ("bin", "&&", guard, g)
+            return ("ptuple", subs), guard
+        if k == "por":
+            alts = [self.norm_pat(x, nested) for x in p[1]]
+            if all(g is None for _, g in alts):
+                return p, None
+            # alternatives of one shape binding the same variable: Some(c @ b'+') | Some(c @ b'-')
+            shapes = [a for a, _ in alts]
+            if all(sh == shapes[0] for sh in shapes) and all(g is not None for _, g in alts):
+                guard = alts[0][1]
+                for _, g in alts[1:]:
+                    guard = ("bin", "||", guard, g)
+                return shapes[0], guard
+            raise TransError("or-pattern with literals of different shapes")
+        return p, None
+
+    def rename(self, e, a, b):
+        if isinstance(e, tuple):
+            if e == ("path", [a]):
+                return ("path", [b])
+            return tuple(self.rename(x, a, b) for x in e)
+        if isinstance(e, list):
+            return [self.rename(x, a, b) for x in e]
+        return e
+
     def hoist(self, e, top):
         """-> (let statements, expression without nested `?`).  `top`: e is the whole initialiser / tail, where a
         `?` directly at the top, and branching constructs, are handled by the translator itself."""
@@ -995,10 +1180,21 @@ class Normaliser:
             return lets, ("if", c, self.body(e[2]), self.body(e[3]) if e[3] is not None else None)
         if k == "iflet":
             lets, sc = self.hoist(e[2], top=False)
+            p2, g = self.norm_pat(e[1], nested=False)
+            if g is not None:
+                # `if let p = s { a } else { b }` with literals inside p: a match with a guard
+                els = self.body(e[4]) if e[4] is not None else ("block", [], None)
+                return lets, ("match", sc, [(p2, g, self.body(e[3])), (("pwild",), None, els)])
             return lets, ("iflet", e[1], sc, self.body(e[3]), self.body(e[4]) if e[4] is not None else None)
         if k == "match":
             lets, sc = self.hoist(e[1], top=False)
-            return lets, ("match", sc, [(p, g, self.body(b)) for p, g, b in e[2]])
+            arms = []
+            for p, g, b in e[2]:
+                p2, g2 = self.norm_pat(p, nested=False)
+                if g2 is not None:
+                    g = g2 if g is None else ("bin", "&&", g2, g)
+                arms.append((p2, g, self.body(b)))
+            return lets, ("match", sc, arms)
         if k == "closure":
             return [], ("closure", e[1], e[2], self.body(e[3]))
         if k == "return":
@@ -1037,7 +1233,9 @@ class Normaliser:
 class Fn:
     """translation of one function"""
 
-    def __init__(self, tr, qname, params, ret, body, cfg):
+    def __init__(self, tr, qname, params, ret, body, cfg, generics=None):
+        self.generics = generics or []
+        self.inout = []
         self.tr = tr
         self.qname = qname
         self.owner = qname.split(".")[0] if "." in qname else None
@@ -1067,7 +1265,11 @@ class Fn:
     def ex(self, e, env, want=None):
         k = e[0]
         if k == "lit":
+            if len(e) > 2 and e[2] == "byte":
+                return (str(e[1]), ("u8",))
             return (str(e[1]) if e[1] >= 0 else "(%d)" % e[1], want if want and want[0] in INT_TYPES else ("int",))
+        if k == "bytes":
+            return ("([" + ", ".join(str(b) for b in e[1]) + "] : List Nat)", ("slice", ("u8",)))
         if k == "bool":
             return ("true" if e[1] else "false", ("bool",))
         if k == "neg":
@@ -1135,7 +1337,7 @@ class Fn:
         if k == "mcall":
             return self.mcall(e, env)
         if k == "call":
-            return self.call(e, env)
+            return self.call(e, env, want)
         if k == "struct":
             name = e[1][-1]
             if name == "Self":
@@ -1268,6 +1470,9 @@ class Fn:
         head, last = path[-2], path[-1]
         if head == "Self":
             head = self.owner
+        if "%s.%s" % (head, last) in EXTERN_FNS:
+            lean, pts, rt = EXTERN_FNS["%s.%s" % (head, last)]
+            return (lean, ("fnty", pts, rt))
         if head in INT_TYPES and last in ("MIN", "MAX"):
             return (self.bound(head, last), (head,))
         if head == "Ordering":
@@ -1304,6 +1509,8 @@ class Fn:
             lop = {"==": "=", "!=": "≠", "<": "<", ">": ">", "<=": "≤", ">=": "≥"}[op]
             if ta and ta[0] == "named" and ta[1] not in ("Ordering",) and ta[1] not in ERROR_ENUMS:
                 raise TransError("comparison of %r" % (ta,))
+            if ta and ta[0] in ("slice", "option") and op in ("==", "!="):
+                return ("(%s %s %s)" % (a, op, b), ("bool",))
             return ("(decide (%s %s %s))" % (a, lop, b), ("bool",))
         if op in ("+", "-", "*"):
             return ("(%s %s %s)" % (a, op, b), t)
@@ -1340,6 +1547,14 @@ class Fn:
             return ("%s.isEmpty" % s, ("bool",))
         if name in ("iter", "copied", "into_iter", "as_slice"):
             return (s, t)
+        if name == "first":
+            return ("(List.head? %s)" % s, ("option", t[1] if (t and t[0] == "slice") else None))
+        if name == "split_at_checked":
+            return ("(Src.split_at_checked %s %s)" % (s, a[0]), ("option", ("tuple", [t, t])))
+        if name == "starts_with":
+            return ("(List.isPrefixOf %s %s)" % (a[0], s), ("bool",))
+        if name == "unwrap_or":
+            return ("(Option.getD %s %s)" % (s, a[0]), t[1] if (t and t[0] == "option") else None)
         if name == "enumerate":
             return ("(Src.enumerate %s)" % s, ("slice", ("tuple", [("usize",), t[1] if (t and t[0] == "slice") else None])))
         if name == "zip":
@@ -1382,17 +1597,24 @@ class Fn:
                 return ("(Src.%s %s)" % (self.tr.lean_name(q), " ".join([s] + a)), self.tr.sigs[q][1])
         raise TransError("method %s on %r in %s" % (name, t, self.qname))
 
-    def call(self, e, env):
+    def call(self, e, env, want=None):
         f, args = e[1], e[2]
         if f[0] != "path":
             raise TransError("call of a non-path")
         path = f[1]
         name = path[-1]
+        if len(path) == 1 and name in env and env[name] and env[name][0] == "fnty":
+            return ("(%s %s)" % (vname(name), " ".join(self.ex(x, env)[0] for x in args)), env[name][2])
+        if name == "parse_int" and len(path) == 1:
+            t = want[0] if (want and want[0] in PARSE_INT) else None
+            if t is None:
+                raise TransError("parse_int: result type not inferred in %s" % self.qname)
+            return ("(%s %s)" % (PARSE_INT[t], self.ex(args[0], env)[0]), ("result", (t,), ("named", "TzStringError")))
         if len(path) == 1 and name in env and env[name] and env[name][0] == "closure":
             return ("(%s %s)" % (vname(name), " ".join(self.ex(x, env)[0] for x in args)), env[name][1])
         if name in ("Ok", "Err", "Some") and len(path) == 1:
             s, t = self.ex(args[0], env)
-            return ("(%s %s)" % ({"Ok": "Except.ok", "Err": "Except.error", "Some": "some"}[name], s), None)
+            return ("(%s %s)" % ({"Ok": "Except.ok", "Err": "Except.error", "Some": "some"}[name], s), ("option", t) if name == "Some" else None)
         if len(path) >= 2 and path[-2] in ERROR_ENUMS:
             s, _ = self.ex(args[0], env)
             return ("(TzVerif.Model.%s.%s %s)" % (path[-2], lower_first(name), s), ("named", path[-2]))
@@ -1414,6 +1636,10 @@ class Fn:
                 head = self.owner
             if head[0].isupper():
                 q = "%s.%s" % (head, name)
+        if q in EXTERN_FNS:
+            lean, pts, rt = EXTERN_FNS[q]
+            a = [self.ex(x, env, want=pt)[0] for pt, x in zip(pts, args)]
+            return ("(%s %s)" % (lean, " ".join(a)), rt)
         if q not in self.tr.sigs:
             raise TransError("call of untranslated function %s in %s" % ("::".join(path), self.qname))
         params, ret = self.tr.sigs[q]
@@ -1544,6 +1770,14 @@ class Fn:
         if node[0] == "call" and node[1][0] == "path" and len(node[1][1]) == 1 and node[1][1][0] in self.sclosures:
             # calling a closure that assigns captured variables assigns them
             acc.extend(self.sclosures[node[1][1][0]])
+        if node[0] == "call" and node[1][0] == "path":
+            path = node[1][1]
+            q = path[-1]
+            if len(path) >= 2 and path[-2][0].isupper():
+                q = "%s.%s" % (path[-2] if path[-2] != "Self" else self.owner, path[-1])
+            for i in self.tr.inout.get(q, []):
+                if i < len(node[2]) and node[2][i][0] == "path" and len(node[2][i][1]) == 1:
+                    acc.append(node[2][i][1][0])
         if node[0] == "assign":
             lhs = node[1]
             if lhs[0] == "path" and len(lhs[1]) == 1:
@@ -1564,10 +1798,13 @@ class Fn:
         rest = stmts[1:]
         kind = s[0]
         cont = lambda env2: self.stmts(rest, tail, env2, k, ctx)
+        self.following = (rest, tail)
         if kind == "let":
             p, t, init = s[1], self.resolve(s[2]), s[3]
             if init is None:
                 raise TransError("let without initialiser")
+            if t is None and p[0] == "pvar" and self.mentions_parse_int(init):
+                t = self.use_type(p[1], rest, tail, env)
             if init[0] == "closure" and p[0] == "pvar":
                 captured = []
                 for n in self.assigned(init[3], []):
@@ -1583,7 +1820,10 @@ class Fn:
             n = lhs[1][0]
             if op != "=":
                 rhs = ("bin", op[0], lhs, rhs)
-            return self.bind(("pvar", n), env.get(n), rhs, env, cont, ctx, keep_type=True)
+            tn = env.get(n)
+            if (tn is None or tn[0] == "int") and self.mentions_parse_int(rhs):
+                tn = self.use_type(n, rest, tail, env)
+            return self.bind(("pvar", n), tn, rhs, env, cont, ctx, keep_type=True)
         if kind == "expr":
             e = s[1]
             if e[0] in ("return", "break"):
@@ -1603,6 +1843,54 @@ class Fn:
             return self.forloop(s, env, cont, ctx)
         raise TransError("statement %s" % kind)
 
+    @staticmethod
+    def mentions_parse_int(e):
+        if not isinstance(e, (tuple, list)):
+            return False
+        if isinstance(e, tuple) and len(e) >= 3 and e[0] == "call" and e[1] == ("path", ["parse_int"]):
+            return True
+        return any(Fn.mentions_parse_int(x) for x in e if isinstance(x, (tuple, list)))
+
+    def use_type(self, name, rest, tail, env):
+        """type a variable must have, from its first use as an argument of a call with a known signature or as a
+        component of the returned `Ok((…))` tuple"""
+        found = []
+
+        def visit(node):
+            if found or not isinstance(node, (tuple, list)):
+                return
+            if isinstance(node, tuple) and node and node[0] == "call" and node[1][0] == "path":
+                path = node[1][1]
+                q = path[-1]
+                if len(path) >= 2 and path[-2][0].isupper():
+                    q = "%s.%s" % (path[-2] if path[-2] != "Self" else self.owner, path[-1])
+                sig = None
+                if q in self.tr.sigs:
+                    sig = [t for _, t in self.tr.sigs[q][0]]
+                elif q in EXTERN_FNS:
+                    sig = EXTERN_FNS[q][1]
+                if sig:
+                    for a, t in zip(node[2], sig):
+                        if a == ("path", [name]):
+                            found.append(strip_ref(t))
+                            return
+                if path == ["Ok"] and node[2] and node[2][0][0] == "tuple" and self.ret and self.ret[0] == "result":
+                    rt = strip_ref(self.ret[1])
+                    if rt and rt[0] == "tuple":
+                        comps = rt[1][0][1] if (self.inout and rt[1] and rt[1][0] and rt[1][0][0] == "tuple") else rt[1]
+                        for i, a in enumerate(node[2][0][1]):
+                            if a == ("path", [name]) and i < len(comps):
+                                found.append(strip_ref(comps[i]))
+                                return
+            for x in node:
+                if isinstance(x, (tuple, list)):
+                    visit(x)
+        visit(rest)
+        visit(tail)
+        if not found:
+            visit(self.body)     # a use after the enclosing block
+        return found[0] if found else None
+
     def leave(self, e, env, ctx):
         if e[0] == "break":
             if "brk" not in ctx:
@@ -1615,7 +1903,42 @@ class Fn:
         """text of a returned value; with an output list, `Ok(())` is `Ok(list)`"""
         if self.out and e == ("call", ("path", ["Ok"]), [("tuple", [])]) and not getattr(self, "in_closure", False):
             return "(Except.ok %s)" % vname(self.out)
+        if self.inout and not getattr(self, "in_closure", False):
+            st = ", ".join(vname(n) for n in self.inout)
+            if e[0] == "call" and e[1] == ("path", ["Ok"]):
+                inner = strip_ref(self.ret[1])[1][0] if (self.ret and self.ret[0] == "result") else None
+                return "(Except.ok (%s, %s))" % (self.ex(e[2][0], env, want=inner)[0], st)
+            if e[0] == "call" and e[1] == ("path", ["Err"]):
+                return "(Except.error %s)" % self.ex(e[2][0], env)[0]
+            if self.state_vars(e, env) == self.inout:
+                return self.ex(e, env)[0]           # a call that threads the same state: its result is ours
+            if self.ret and self.ret[0] == "result":
+                return "(Src.withState %s (%s))" % (self.ex(e, env)[0], st)
+            return "(%s, %s)" % (self.ex(e, env)[0], st)
         return self.ex(e, env, want=self.ret)[0]
+
+    def state_vars(self, e, env):
+        """the caller's variables that a call passes at the callee's `&mut` positions (through wrappers such as
+        `map_err(f(cursor))`), or []"""
+        if e[0] != "call" or e[1][0] != "path":
+            return []
+        path = e[1][1]
+        q = path[-1]
+        if len(path) >= 2 and path[-2][0].isupper():
+            q = "%s.%s" % (path[-2] if path[-2] != "Self" else self.owner, path[-1])
+        if q in self.tr.inout and self.tr.inout[q]:
+            names = []
+            for i in self.tr.inout[q]:
+                a = e[2][i]
+                if a[0] != "path" or len(a[1]) != 1:
+                    raise TransError("&mut argument that is not a local variable")
+                names.append(a[1][0])
+            return names
+        if q in self.tr.sigs and len(e[2]) == 1 and len(self.tr.sigs[q][0]) == 1:
+            pt = strip_ref(self.tr.sigs[q][0][0][1])
+            if pt and pt[0] == "result":
+                return self.state_vars(e[2][0], env)   # Result -> Result wrapper (map_err)
+        return []
 
     def tail(self, e, env, k, ctx):
         if e[0] in ("return", "break"):
@@ -1628,10 +1951,31 @@ class Fn:
             return self.bind(("pvar", "__v"), None, e, env, lambda env2: k("__v", env2), ctx)
         if ctx.get("tailmap"):
             return ctx["tailmap"](e, env)
-        if ctx.get("fn_tail") and self.out:
+        if ctx.get("fn_tail") and (self.out or self.inout):
             return k(self.ret_value(e, env), env)
         s, t = self.ex(e, env, want=self.ret if not ctx.get("value_only") else None)
         return k(s, env)
+
+    def with_carried(self, e, carried):
+        """rewrite every value a branching construct yields, v, into (v, carried…)"""
+        k = e[0]
+        if k == "block":
+            if e[2] is None:
+                return ("block", e[1], ("tuple", [("tuple", [])] + [("path", [n]) for n in carried]))
+            return ("block", e[1], self.with_carried(e[2], carried))
+        if k == "if":
+            return ("if", e[1], self.with_carried(self.as_block(e[2]), carried), self.with_carried(self.as_block(e[3]), carried) if e[3] is not None else None)
+        if k == "iflet":
+            return ("iflet", e[1], e[2], self.with_carried(self.as_block(e[3]), carried), self.with_carried(self.as_block(e[4]), carried) if e[4] is not None else None)
+        if k == "match":
+            return ("match", e[1], [(p, g, self.with_carried(self.as_block(b), carried)) for p, g, b in e[2]])
+        if k in ("return", "break", "unreachable"):
+            return e
+        if k == "try":
+            self.carry_no = getattr(self, "carry_no", 0) + 1
+            v = "__c%d" % self.carry_no
+            return ("block", [("let", ("pvar", v), None, e)], ("tuple", [("path", [v])] + [("path", [n]) for n in carried]))
+        return ("tuple", [e] + [("path", [n]) for n in carried])
 
     def stateful_closure(self, name, cl, captured, env, cont):
         """a closure that assigns captured variables M and returns Result<T, E>:
@@ -1675,10 +2019,17 @@ class Fn:
             return "match (%s %s %s) with\n| .ok (%s, %s) =>\n%s\n| .error e => %s" % (vname(cname), mt, args, okp, mt, indent(cont(env2)), ctx["ret"]("(Except.error e)"))
         # initialisers that may leave the function
         if init[0] == "try":
-            s, ti = self.ex(init[1], env)
+            s, ti = self.ex(init[1], env, want=t)
             env2 = dict(env)
             self.post = []
-            okp = self.pat(p, env2, ti[1] if ti and ti[0] == "result" else t)
+            sv = self.state_vars(init[1], env)
+            inner = ti[1] if ti and ti[0] == "result" else t
+            if sv:
+                inner = strip_ref(inner)
+                vt = inner[1][0] if (inner and inner[0] == "tuple") else None
+                okp = "(%s, %s)" % (self.pat(p, env2, vt), ", ".join(vname(n) for n in sv))
+            else:
+                okp = self.pat(p, env2, inner)
             if self.post:
                 raise TransError("payload pattern after ?")
             conv = "e"
@@ -1687,9 +2038,24 @@ class Fn:
                 if et != rt:
                     if rt == ("named", "TzError") and et[0] == "named" and et[1] in FROM_TZERROR:
                         conv = "(TzVerif.Model.TzError.%s e)" % FROM_TZERROR[et[1]]
+                    elif et[0] == "named" and rt[0] == "named" and (et[1], rt[1]) in FROM_CONV:
+                        conv = "(%s e)" % FROM_CONV[(et[1], rt[1])]
                     else:
                         raise TransError("? converts %r into %r" % (et, rt))
             return "match %s with\n| .ok %s =>\n%s\n| .error e => %s" % (s, paren(okp), indent(cont(env2)), ctx["ret"]("(Except.error %s)" % conv))
+        if init[0] in ("match", "if", "iflet", "block"):
+            carried = []
+            for n in self.assigned(init, []):
+                if n in env and n not in carried and n not in self.pat_names(p):
+                    carried.append(n)
+            if carried:
+                # the construct also updates outer variables: they travel with its value
+                if t is None:
+                    t = self.ty_of(init, env)
+                p = ("ptuple", [p] + [("pvar", n) for n in carried])
+                t = ("tuple", [t] + [env[n] for n in carried])
+                init = self.with_carried(init, carried)
+        ctx = dict(ctx, fn_tail=False) if init[0] in ("match", "if", "iflet", "block") else ctx
         if init[0] in ("match", "if", "iflet", "block") and self.may_leave(init):
             if t is None:
                 t = self.ty_of(init, env)
@@ -2058,6 +2424,7 @@ class Translator:
         self.sigs = {}
         self.consts = {}
         self.order = []
+        self.inout = {}
 
     def lean_name(self, q):
         return q
@@ -2080,13 +2447,23 @@ class Translator:
                     raise TransError("%s: function %s not found" % (rel, q))
                 if funcs[q][0] == "ERROR":
                     raise TransError("%s: %s does not parse: %s" % (rel, q, funcs[q][1]))
-                self.funcs[q] = (rel,) + funcs[q] + (cfg,)
+                fq = funcs[q] if len(funcs[q]) == 4 else funcs[q] + ([],)
+                self.funcs[q] = (rel,) + fq + (cfg,)
                 self.order.append(q)
         # signatures first (calls need return types)
         for q in self.order:
-            rel, params, ret, body, cfg = self.funcs[q]
-            f = Fn(self, q, params, ret, body, cfg)
+            rel, params, ret, body, generics, cfg = self.funcs[q]
+            f = Fn(self, q, params, ret, body, cfg, generics)
             ps = [(n, f.resolve(t)) for n, t in params]
+            inout = [n for n, t in ps if t and t[0] == "mutref"]
+            self.inout[q] = [i for i, (n, t) in enumerate(ps) if t and t[0] == "mutref"]
+            if inout:
+                # `&mut` parameters: passed in, and returned next to the value
+                sts = [strip_ref(t) for n, t in ps if t and t[0] == "mutref"]
+                if f.ret[0] == "result":
+                    f.ret = ("result", ("tuple", [f.ret[1]] + sts), f.ret[2])
+                else:
+                    f.ret = ("tuple", [f.ret] + sts)
             if f.out:
                 # `&mut impl DateTimeList`: the pushed sequence, threaded through and returned
                 lt = ("slice", ("named", "FoundDateTimeKind"))
@@ -2095,13 +2472,14 @@ class Translator:
             self.sigs[q] = (ps, f.ret)
         out = []
         for q in self.order:
-            rel, params, ret, body, cfg = self.funcs[q]
-            f = Fn(self, q, params, ret, body, cfg)
+            rel, params, ret, body, generics, cfg = self.funcs[q]
+            f = Fn(self, q, params, ret, body, cfg, generics)
             f.ret = self.sigs[q][1]
+            f.inout = [n for n, t in self.sigs[q][0] if t and t[0] == "mutref"]
             env = {}
-            binders = []
+            binders = ["{%s : Type}" % g for g in generics]
             for n, t in self.sigs[q][0]:
-                env[n] = t
+                env[n] = strip_ref(t)
                 binders.append("(%s : %s)" % (vname(n), lean_ty(strip_ref(t))))
             text = f.block(f.body, env, lambda v, env2: v)
             out.append("-- %s `%s`\ndef %s %s: %s :=\n%s\n" % (rel, q.replace(".", "::"), q, "".join(b + " " for b in binders), lean_ty(f.ret), indent(text)))
@@ -2152,6 +2530,13 @@ CONFIG = {
         ("src/datetime/find.rs", {
             "find_date_time": {"out_param": "found_date_time_list"},
         }),
+        ("src/parse/utils.rs", {
+            "read_exact": {}, "read_tag": {}, "read_optional_tag": {}, "read_while": {}, "read_until": {},
+        }),
+        ("src/parse/tz_string.rs", {
+            "map_err": {}, "parse_time_zone_designation": {}, "parse_hhmmss": {}, "parse_signed_hhmmss": {}, "parse_offset": {},
+            "parse_rule_day": {}, "parse_rule_time": {}, "parse_rule_time_extended": {}, "parse_rule_block": {}, "parse_posix_tz": {},
+        }),
     ]
 }
 
@@ -2169,7 +2554,7 @@ def main():
         sys.exit(3)
     text = ("-- GENERATED by tools/rs2lean.py from /repo/src on every run. Do not edit.\n"
             "-- One Lean definition per listed Rust function, translated statement by statement.\n"
-            "import TzVerif.SrcPrelude\n\nset_option linter.unusedVariables false\n\nnamespace TzVerif.Src\nopen TzVerif\n\n" + "\n".join(defs) + "\nend TzVerif.Src\n")
+            "import TzVerif.SrcPrelude\nimport TzVerif.Model.TimeZone\n\nset_option linter.unusedVariables false\n\nnamespace TzVerif.Src\nopen TzVerif\n\n" + "\n".join(defs) + "\nend TzVerif.Src\n")
     path = os.path.join(OUT, "Src.lean")
     old = open(path).read() if os.path.exists(path) else None
     if old != text:
